@@ -50,6 +50,18 @@ func RemoveCommasFilter(x Sexp) bool {
 func (env *Zlisp) FilterAny(x Sexp, f Filter) (filtered Sexp, keep bool) {
 	switch ele := x.(type) {
 	case *SexpArray:
+		// the filters are also applied to run-time values (eval, builders), and
+		// an array built at run time can contain itself: leave it as it is
+		// instead of copying it forever.
+		if env.filtering == nil {
+			env.filtering = make(map[*SexpArray]bool)
+			defer func() { env.filtering = nil }()
+		}
+		if env.filtering[ele] {
+			return x, true
+		}
+		env.filtering[ele] = true
+		defer delete(env.filtering, ele)
 		res := &SexpArray{Val: env.FilterArray(ele.Val, f), Typ: ele.Typ, IsFuncDeclTypeArray: ele.IsFuncDeclTypeArray, Env: env}
 		return res, true
 	case *SexpPair:
